@@ -266,7 +266,7 @@ theorem fileView_ref_nonempty (xf : Nat) (c : Cell F.Num) : (fileView F xf c).re
   have href : coordinateFromIndexWithLock c.col c.row false false = indexToAlpha c.col ++ decDigits c.row := by
     simp [coordinateFromIndexWithLock]
   have := decDigits_isEmpty c.row
-  simp only [fileView, href]
+  simp only [fileView, fileViewCore, Umya.CellXml.Cell.resolved, href]
   cases hd : decDigits c.row with
   | nil => rw [hd] at this; simp at this
   | cons d ds => simp
@@ -315,7 +315,7 @@ theorem perRow_rendered (path : String) (nXf : Nat) (xf : List Char → Nat) (tb
       have hp := ref_position c.col c.row (hrng c (hkeep c hc')).1
       have hr := hrow c (hkeep c hc')
       have hg := hrng c (hkeep c hc')
-      simp only [fileView]
+      simp only [fileView, fileViewCore, Umya.CellXml.Cell.resolved]
       apply decide_eq_true
       rw [hp.1, hp.2]
       omega
@@ -324,8 +324,9 @@ theorem perRow_rendered (path : String) (nXf : Nat) (xf : List Char → Nat) (tb
       rw [List.all_eq_true]
       intro v hv
       obtain ⟨c, _, rfl⟩ := List.mem_map.1 hv
-      simp only [fileView]
+      simp only [fileView, fileViewCore, Umya.CellXml.Cell.resolved]
       apply decide_eq_true
+      show (if c.styled = true then xf (coordinateFromIndexWithLock c.col c.row false false) else 0) < nXf
       split
       · exact hxf _
       · exact hn
